@@ -179,6 +179,41 @@ pub fn run(toks: &[&str]) -> String {
                 if bad.is_empty() { format!("swept variants={} mounted={}",n,mounted) } else { format!("PANICKED {}",bad.join("; ")) }
             }).replacen("ok PANICKED","FAIL panic:",1)
         },
+        "unpack" => {
+            // malform id unpack seed fs : file images of every file system filled with crafted and random bytes (control codes, counts,
+            // lengths and addresses at their limits); every unpacker must return a result or an error
+            let fs = toks[4].to_string();
+            with_watchdog_secs(60,move || {
+                let mut bad: Vec<String> = Vec::new();
+                let mut n = 0;
+                for rep in 0..400 {
+                    let mut f = match fs.as_str() {
+                        "dos3x" => a2kit::fs::dos3x::new_fimg(256,"TEST"), "prodos" => a2kit::fs::prodos::new_fimg(512,false,"TEST"),
+                        "pascal" => a2kit::fs::pascal::new_fimg(512,false,"TEST"), "cpm" => a2kit::fs::cpm::new_fimg(1024,false,"TEST.TXT"),
+                        _ => a2kit::fs::fat::new_fimg(512,false,"TEST.TXT") }.expect("fimg");
+                    let len = [0usize,1,2,3,4,5,255,256,257,1023,1024,1025,2048,3000][rng.below(14)];
+                    let mut d: Vec<u8> = match rng.below(5) {
+                        0 => (0..len).map(|_| rng.below(256) as u8).collect(),
+                        1 => (0..len).map(|_| [0x10u8,0x05,0x0d,0x00,0x1f,0x20,0xff,0x41,0x1a,0x8d][rng.below(10)]).collect(),
+                        2 => vec![0x10;len], 3 => vec![0xff;len],
+                        _ => { let mut v: Vec<u8> = (0..len).map(|_| 0x20 + rng.below(0x5f) as u8).collect(); if len>0 { let k = rng.below(len); v[k] = 0x10; } v }
+                    };
+                    if len>=4 && rng.below(2)==0 { let v = [0u16,1,0xffff,0xfffe,len as u16,(len as u16).wrapping_sub(4)][rng.below(6)]; d[2] = (v&255) as u8; d[3] = (v>>8) as u8; }
+                    f.desequence(&d);
+                    if rng.below(3)==0 { let e = [0usize,1,len/2,len+1,len+5000,0xffffff][rng.below(6)]; f.set_eof(e); }
+                    if rng.below(4)==0 && f.chunks.len()>1 { let k = *f.chunks.keys().next().unwrap(); f.chunks.remove(&k); }
+                    n += 1;
+                    let r = catch_unwind(AssertUnwindSafe(|| {
+                        let _ = f.unpack_raw(true); let _ = f.unpack_raw(false); let _ = f.unpack_txt(); let _ = f.unpack_bin(); let _ = f.unpack_tok(); let _ = f.get_load_address();
+                        let _ = f.unpack_rec(Some(64)); let _ = f.unpack_rec(None);
+                    }));
+                    if let Err(e) = r { if bad.len()<3 {
+                        let msg = if let Some(s) = e.downcast_ref::<String>() { s.clone() } else if let Some(s) = e.downcast_ref::<&str>() { s.to_string() } else { "?".to_string() };
+                        bad.push(format!("rep {} ({} bytes, first {:02x?}): {}",rep,d.len(),&d[..d.len().min(6)],msg.replace('\n'," "))); } }
+                }
+                if bad.is_empty() { format!("swept variants={}",n) } else { format!("PANICKED {}",bad.join("; ")) }
+            }).replacen("ok PANICKED","FAIL panic:",1)
+        },
         "tokfields" => {
             // malform id tokfields seed lang : a representative tokenized program; every byte set to each boundary value, every prefix
             // (truncation), and the RAM-image entry points with every pointer value class; the detokenizer must return each time
